@@ -99,6 +99,7 @@ WHITELIST = [
     ("ordered_map_valid_indexed_partial", ["arr", "int", "int", "arr", "int", "int", "arr", "int", "arr", "arr"] + ["int"] * 5),
     ("_apply_spans_concat_2", ["arr", "arr", "arr", "arr", "arr"] + ["int"] * 6),
     ("ordered_inner_map_result_size", ["arr", "arr"]),
+    ("compare_arrays", ["arr", "arr"]),
 ]
 
 LEAN_T = {"int": "Int", "bool": "Bool", "arr": "List Int", "barr": "List Bool", "opt_arr": "Option (List Int)",
